@@ -1,0 +1,108 @@
+//! Verification hooks -- compiled only with the cargo feature `verif` (off by default).
+//!
+//! Nothing here changes behaviour by itself: [point()] / [spin()] call an installable callback (a no-op when none is
+//! installed) so that an external harness may deschedule or delay the calling thread at places where a preemption
+//! matters; [sequence_origin()] lets the ring buffers start their free-running sequence counters somewhere else than 0,
+//! so histories may be run next to the 32-bit wrap-around without transporting 2^32 events first.
+
+use std::{
+    cell::Cell,
+    sync::atomic::{AtomicUsize, Ordering::{Acquire, Release}},
+};
+
+/// the thread may be preempted here
+pub const KIND_POINT: u32 = 0;
+/// the thread is inside a retry / spin loop: somebody else has to run for it to make progress
+pub const KIND_SPIN:  u32 = 1;
+
+static HOOK: AtomicUsize = AtomicUsize::new(0);
+
+thread_local! {
+    static SEQUENCE_ORIGIN: Cell<Option<u32>> = const { Cell::new(None) };
+}
+
+/// Installs (or removes) the callback receiving `(site, kind)` for every hook site reached by any thread
+pub fn install(hook: Option<fn(u32, u32)>) {
+    HOOK.store(hook.map(|f| f as usize).unwrap_or(0), Release);
+}
+
+#[inline(always)]
+fn call(site: u32, kind: u32) {
+    let hook = HOOK.load(Acquire);
+    if hook != 0 {
+        let hook: fn(u32, u32) = unsafe { std::mem::transmute::<usize, fn(u32, u32)>(hook) };
+        hook(site, kind);
+    }
+}
+
+/// "a preemption could happen here"
+#[inline(always)]
+pub fn point(site: u32) {
+    call(site, KIND_POINT);
+}
+
+/// "I am in a retry loop and need somebody else to run"
+#[inline(always)]
+pub fn spin(site: u32) {
+    call(site, KIND_SPIN);
+}
+
+/// Sets, for the calling thread, the value the sequence counters of ring buffers constructed from now on will start from
+pub fn set_sequence_origin(origin: Option<u32>) {
+    SEQUENCE_ORIGIN.with(|o| o.set(origin));
+}
+
+/// Consulted by the ring buffers' constructors
+pub fn sequence_origin() -> Option<u32> {
+    SEQUENCE_ORIGIN.with(|o| o.get())
+}
+
+macro_rules! sites {
+    ($($name:ident),* $(,)?) => {
+        #[allow(non_camel_case_types, clippy::upper_case_acronyms)]
+        #[repr(u32)]
+        enum SiteIds { $($name),* }
+        $(pub const $name: u32 = SiteIds::$name as u32;)*
+        /// Names of the hook sites, indexed by site id
+        pub const SITES: &[&str] = &[$(stringify!($name)),*];
+    }
+}
+
+sites! {
+    // ogre_sync
+    SYNC_LOCK_ENTER, SYNC_LOCK_SPIN, SYNC_UNLOCK,
+    // atomic_move
+    AM_LEAK_AFTER_RESERVE, AM_LEAK_FULL_BEFORE_RECEDE, AM_LEAK_RECEDE_FAILED,
+    AM_PUBLISH_BEFORE, AM_PUBLISH_SPIN, AM_PUBLISH_INDEX_BEFORE, AM_UNLEAK_INDEX_BEFORE,
+    AM_CONSUME_AFTER_RESERVE, AM_CONSUME_EMPTY_BEFORE_RECEDE, AM_CONSUME_RECEDE_FAILED,
+    AM_CONSUME_AFTER_READ, AM_RELEASE_SPIN, AM_LEN_QUERY,
+    // full_sync_move
+    FS_LEAK_LOCKED, FS_PUBLISH_BEFORE, FS_CONSUME_LOCKED, FS_CONSUME_AFTER_READ, FS_LEN_QUERY, FS_LEN_BETWEEN_READS,
+    // ogre_array_pool_allocator
+    ALLOC_AFTER_DEQUEUE, DEALLOC_AFTER_DROP,
+    // ogre_arc / ogre_unique
+    ARC_CLONE_BEFORE, ARC_INCREMENT_BEFORE, ARC_DROP_BEFORE, ARC_DROP_AFTER_DEC, ARC_DROP_AFTER_DEALLOC,
+    UNIQUE_DROP_BEFORE,
+    // streams_manager
+    SM_CREATE_AFTER_COUNTERS, SM_CREATE_AFTER_ID, SM_CREATE_AFTER_FLAG,
+    SM_WAKE_BEFORE_READ, SM_CANCEL_AFTER_FLAG, SM_CANCEL_ALL_EACH,
+    SM_REGISTER_BEFORE_COMPARE, SM_REGISTER_BEFORE_SELF_WAKE,
+    SM_DROPPED_AFTER_WAKER, SM_DROPPED_AFTER_COUNTERS, SM_DROPPED_AFTER_VACANT,
+    SM_SYNC_LOCKED, SM_SYNC_EACH_ENTRY, SM_SYNC_EACH_SENTINEL,
+    SM_FLUSH_WAIT, SM_END_STREAM_WAIT, SM_END_ALL_WAIT,
+    // mutiny_stream
+    MS_AFTER_CONSUME_NONE, MS_AFTER_KEEP_RUNNING, MS_BEFORE_PENDING,
+    // uni channels
+    UNI_AFTER_PUBLISH_BEFORE_WAKE, UNI_XB_BETWEEN_LEN_AND_SEND, UNI_XB_AFTER_SEND_BEFORE_WAKE, UNI_XB_AFTER_FULL_TEST,
+    // multi channels
+    MULTI_FANOUT_BEFORE_COUNT, MULTI_FANOUT_AFTER_INCREMENT, MULTI_FANOUT_BEFORE_ENTRY, MULTI_FANOUT_BEFORE_PUBLISH,
+    MULTI_FANOUT_BEFORE_WAKE, MULTI_XB_BETWEEN_LEN_AND_SEND,
+    // mmap log
+    MMAP_PUBLISH_AFTER_RESERVE, MMAP_PUBLISH_AFTER_SETTER, MMAP_PUBLISH_SPIN,
+    MMAP_CONSUME_AFTER_RESERVE, MMAP_CONSUME_RECEDE_SPIN, MMAP_SUBSCRIBE_AFTER_TAIL,
+    MMAP_CREATE_AFTER_SUBSCRIBE, MMAP_CREATE_AFTER_ID,
+    // incremental_averages
+    AVG_BETWEEN_LOAD_AND_CAS,
+    // non_blocking_atomic_stack
+    STACK_BEFORE_SWAP, STACK_LOCKED, STACK_BEFORE_HEAD_UPDATE, STACK_BEFORE_RELEASE, STACK_SPIN,
+}
